@@ -28,6 +28,11 @@ def outcome_kind(o):
     return {"k": k or "?", "site": o.get("site", ""), "status": str(o.get("status", ""))}
 
 
+# the sanity form: a variable lookup and a procedure call whose meaning no generated input can change (the name is
+# outside every generator's alphabet; tick! or car can be redefined by a mutated program)
+SANITY = "(%verif-sanity-7f3a 3)"
+
+
 def evaluate_inputs(ctx, texts, tag, group=GROUP):
     """each text on a long-lived interpreter (GROUP texts per interpreter), each followed by the sanity form"""
     jobs = []
@@ -35,7 +40,7 @@ def evaluate_inputs(ctx, texts, tag, group=GROUP):
         steps = [{"op": "new", "i": 0}]
         for t in texts[c:c + group]:
             steps.append({"op": "eval", "i": 0, "text": t})
-            steps.append({"op": "eval", "i": 0, "text": "(tick! 3)"})
+            steps.append({"op": "eval", "i": 0, "text": SANITY})
         jobs.append({"id": c, "kind": "session", "steps": steps, "renew_after_panic": True})
     res = run_jobs(jobs, ctx.dir, tag=tag, timeout=3000, job_timeout_ms=4000, per_job_timeout=30)
     outs, sans = [None] * len(texts), [None] * len(texts)
@@ -55,7 +60,7 @@ def evaluate_inputs(ctx, texts, tag, group=GROUP):
 
 
 def evaluate_alone(ctx, texts, idxs, tag):
-    jobs = [{"id": i, "kind": "session", "steps": [{"op": "new", "i": 0}, {"op": "eval", "i": 0, "text": texts[i]}, {"op": "eval", "i": 0, "text": "(tick! 3)"}]}
+    jobs = [{"id": i, "kind": "session", "steps": [{"op": "new", "i": 0}, {"op": "eval", "i": 0, "text": texts[i]}, {"op": "eval", "i": 0, "text": SANITY}]}
             for i in idxs]
     res = run_jobs(jobs, ctx.dir, tag=tag, timeout=3000, job_timeout_ms=4000, per_job_timeout=30)
     out = {}
@@ -257,7 +262,7 @@ def run(ctx):
             else:
                 open(os.path.join(d, "lib.sld"), "w").write(mutate(rng, lib))
             open(prog, "w").write("(import (scheme base) (lib))\n(f 1)\n")
-        jobs.append({"id": k, "kind": "session", "steps": [{"op": "new", "i": 0}, {"op": "evalfile", "i": 0, "path": prog}, {"op": "eval", "i": 0, "text": "(tick! 3)"}]})
+        jobs.append({"id": k, "kind": "session", "steps": [{"op": "new", "i": 0}, {"op": "evalfile", "i": 0, "path": prog}, {"op": "eval", "i": 0, "text": SANITY}]})
         labels.append((kind, prog))
     res = run_jobs(jobs, ctx.dir, tag="files", timeout=3000, job_timeout_ms=4000)
     nb = 0
